@@ -55,17 +55,22 @@ def run_serial(case):
     return drive(evaluator, case, events=events, returned=returned)
 
 
-async def _idle(returned):
-    """Let the loop run until no run-function has returned for a few ticks (bounded)."""
+async def _idle(returned, conductors):
+    """Let the loop run until the conductors are done and no run-function has returned for a while (bounded).
+    Returns the jobs whose run-function had returned BEFORE a few extra ticks: their tasks are finished for sure."""
     quiet, n = 0, len(returned)
-    for _ in range(400):
+    for _ in range(2000):
         await asyncio.sleep(0)
-        if len(returned) == n:
+        if len(returned) == n and all(t.done() for t in conductors):
             quiet += 1
-            if quiet >= 6:
-                return
+            if quiet >= 10:
+                break
         else:
             quiet, n = 0, len(returned)
+    snap = list(returned)
+    for _ in range(6):
+        await asyncio.sleep(0)
+    return snap
 
 
 async def _conductor(events, groups, pause):
@@ -156,8 +161,8 @@ def drive(evaluator, case, events=None, returned=None):
                 # finished task, which the next gather must hand back / the next close must record as DONE
                 g = []
                 if returned is not None and evaluator.loop is not None and not evaluator.loop.is_closed():
-                    evaluator.loop.run_until_complete(_idle(returned))
-                    g = [j for j in returned if j in inflight]
+                    snap = evaluator.loop.run_until_complete(_idle(returned, conductors))
+                    g = [j for j in snap if j in inflight]
                 ev = [5, g]
             elif kind == "dump":
                 evaluator.dump_jobs_done_to_csv(tmp.name)
@@ -232,7 +237,7 @@ def _sleepy(job):
     return fval(job.parameters["x"])
 
 
-def check_backend(case):
+def run_backend(case):
     from deephyper.evaluator import Evaluator
 
     evaluator = Evaluator.create(_sleepy, method=case["backend"], method_kwargs={"num_workers": case["workers"]})
@@ -256,7 +261,32 @@ def check_backend(case):
         def __getattr__(self, k):
             return getattr(self.e, k)
 
-    hist, flags = drive(Wrap(evaluator), case, events=None)
+    return drive(Wrap(evaluator), case, events=None)
+
+
+def check_backend(case):
+    if case["backend"] in ("process", "loky"):
+        # fresh interpreter: these evaluators fork helper processes (manager, pools)
+        import json
+        import subprocess
+        import sys
+
+        with tempfile.NamedTemporaryFile("w", suffix=".json", prefix="vp_c01_", delete=False) as f:
+            json.dump(case, f)
+            path = f.name
+        try:
+            p = subprocess.run([sys.executable, "-m", "vp.props.c01_child", path], stdout=subprocess.PIPE, stderr=subprocess.PIPE, text=True, timeout=90)
+        except subprocess.TimeoutExpired:
+            return dict(ok=False, kind="oracle", clause="timeout", sig={"backend": case["backend"], "clause": "timeout"}, nontrivial=True,
+                        desc=["backend=" + case["backend"], "child_timeout"], detail="the evaluator did not finish the history within 90 s in a fresh interpreter")
+        finally:
+            os.unlink(path)
+        if "@@RESULT@@" not in p.stdout:
+            return dict(ok=False, kind="oracle", clause="exception:child", sig={"backend": case["backend"], "clause": "exception"}, nontrivial=True,
+                        desc=["backend=" + case["backend"], "child_failed"], detail=p.stderr[-2000:])
+        out = json.loads(p.stdout.split("@@RESULT@@")[1].strip())
+        return verdict(case, out["hist"], out["flags"])
+    hist, flags = run_backend(case)
     return verdict(case, hist, flags)
 
 
